@@ -437,6 +437,9 @@ func (r *rewriter) file(f *ast.File) ([]byte, error) {
 			if np, ok := shimImports[p]; ok {
 				x.Path = &ast.BasicLit{Kind: token.STRING, Value: strconv.Quote(np)}
 				x.EndPos = 0
+				if x.Name == nil && filepath.Base(np) != filepath.Base(strings.TrimSuffix(p, "/v2")) {
+					x.Name = ast.NewIdent(filepath.Base(strings.TrimSuffix(p, "/v2")))
+				}
 			}
 		case *ast.ChanType:
 			r.usedVrt = true
